@@ -1,17 +1,17 @@
-\* 1 hash slot, identities {1,2} (2 optionally foreign), 3 connections of one user (master a, slave a,
-\* slave b), owner sequences 0..1, activity seconds 0..1, 2 pending tokens per incarnation:
-\* 93,012 distinct states, 7.9M generated, ~30 s with 8 workers
+\* 1 hash slot, identities {1,2}, 3 connections of one user (master a, slave a, slave b),
+\* owner sequences 0..1, activity seconds 0..1, 2 pending tokens per incarnation:
+\* 62,007 distinct states
 SPECIFICATION Spec
 CONSTANTS
   Slots = {1}
   Auths = {1, 2}
   ProfileNames = {"P3"}
-  Foreigns = {{}, {2}}
+  Foreigns = {{}}
   Seqs = {0, 1}
   Seens = {0, 1}
   MaxTok = 2
-  Nows = {0, 2, 3}
-  TTLs = {0, 1}
+  Nows = {2, 3}
+  TTLs = {1}
 VIEW View
 INVARIANTS TypeOK C33_NoResurrection
 PROPERTIES C33_FencesMonotone C33_UnregisterFences C33_StaleRejected C33_ExpireExact C33_LookupExact
